@@ -8,6 +8,153 @@ import Verif.Lemmas.C18
 namespace Verif.C18
 open Verif.Py
 
+
+/-! ## `cast_image` refuses or clamps, never wraps -/
+
+/-- Every value fits (`InRange`: `info.min ≤ v ≤ info.max`): the cast succeeds, with or without `clip`, and converts
+    every value on its own (`astype`). -/
+theorem cast_fits (d : DType) (clip : Bool) (img : List Rat) (hne : img ≠ [])
+    (hall : ∀ v ∈ img, InRange d v) : castImage d clip img = .ok (img.map (astype d)) := by
+  obtain ⟨lo, hmin, hlo⟩ := listMin_spec img hne
+  obtain ⟨hi, hmax, hhi⟩ := listMax_spec img hne
+  have := (range_test_iff d img lo hi hlo hhi).mpr hall
+  unfold castImage
+  rw [hmin, hmax]
+  simp only
+  rw [if_neg this]
+
+/-- Some value does not fit and clipping was not requested: the export is refused (`RuntimeError`) — for every
+    image, however the offending values are distributed; nothing is written. -/
+theorem cast_refuses (d : DType) (img : List Rat) (hne : img ≠ []) (hbad : ¬ ∀ v ∈ img, InRange d v) :
+    castImage d false img = .error .runtime := by
+  obtain ⟨lo, hmin, hlo⟩ := listMin_spec img hne
+  obtain ⟨hi, hmax, hhi⟩ := listMax_spec img hne
+  have : lo < d.lo ∨ d.hi < hi := by
+    by_contra hc
+    exact hbad ((range_test_iff d img lo hi hlo hhi).mp hc)
+  unfold castImage
+  rw [hmin, hmax]
+  simp only
+  rw [if_pos this]
+  rfl
+
+/-- Hence: without `clip` the cast succeeds iff every value fits. -/
+theorem cast_succeeds_iff (d : DType) (img : List Rat) (hne : img ≠ []) :
+    (∃ r, castImage d false img = .ok r) ↔ ∀ v ∈ img, InRange d v := by
+  constructor
+  · rintro ⟨r, hr⟩
+    by_contra hbad
+    rw [cast_refuses d img hne hbad] at hr
+    cases hr
+  · intro hall
+    exact ⟨_, cast_fits d false img hne hall⟩
+
+/-- With `clip=True` every value is first clamped into the range (values that fit are untouched, values below
+    become `info.min`, values above `info.max`), then converted. -/
+theorem cast_clips (d : DType) (img : List Rat) (hne : img ≠ []) :
+    castImage d true img = .ok (img.map fun v => astype d (clipTo d.lo d.hi v)) := by
+  by_cases hall : ∀ v ∈ img, InRange d v
+  · rw [cast_fits d true img hne hall]
+    congr 1
+    apply List.map_congr_left
+    intro v hv
+    rw [((clipTo_spec d.lo d.hi v (lo_le_hi d)).2.1) (hall v hv).1 (hall v hv).2]
+  · obtain ⟨lo, hmin, hlo⟩ := listMin_spec img hne
+    obtain ⟨hi, hmax, hhi⟩ := listMax_spec img hne
+    have : lo < d.lo ∨ d.hi < hi := by
+      by_contra hc
+      exact hall ((range_test_iff d img lo hi hlo hhi).mp hc)
+    unfold castImage
+    rw [hmin, hmax]
+    simp only
+    rw [if_pos this, List.map_map]
+    rfl
+
+/-- The clamp itself. -/
+theorem clip_spec (d : DType) (v : Rat) :
+    InRange d (clipTo d.lo d.hi v) ∧ (InRange d v → clipTo d.lo d.hi v = v) ∧
+      (v < d.lo → clipTo d.lo d.hi v = d.lo) ∧ (d.hi < v → clipTo d.lo d.hi v = d.hi) := by
+  obtain ⟨h1, h2, h3, h4⟩ := clipTo_spec d.lo d.hi v (lo_le_hi d)
+  exact ⟨h1, fun h => h2 h.1 h.2, h3, h4⟩
+
+/-- An empty image has no minimum: NumPy's `ValueError`. -/
+theorem cast_empty (d : DType) (clip : Bool) : castImage d clip [] = .error .value := rfl
+
+/-- uint8 / uint16: whatever is written is an integer of the type's range — the floor of the (clamped) value, so
+    an integer photon count that fits is written unchanged and nothing ever wraps around. -/
+theorem cast_never_wraps (d : DType) (hd : d = .u8 ∨ d = .u16) (clip : Bool) (img r : List Rat)
+    (h : castImage d clip img = .ok r) :
+    r = img.map (fun v => ((⌊clipTo d.lo d.hi v⌋ : Int) : Rat)) ∧
+    (∀ v ∈ r, InRange d v) ∧ (clip = false → ∀ v ∈ img, InRange d v) := by
+  have hne : img ≠ [] := by
+    intro h0; rw [h0, cast_empty] at h; cases h
+  have hr : r = img.map (fun v => ((⌊clipTo d.lo d.hi v⌋ : Int) : Rat)) ∧
+      (clip = false → ∀ v ∈ img, InRange d v) := by
+    cases clip with
+    | true =>
+      rw [cast_clips d img hne] at h
+      cases h
+      refine ⟨?_, fun hc => by cases hc⟩
+      apply List.map_congr_left
+      intro v _
+      exact (astype_int d hd _ (clip_spec d v).1).1
+    | false =>
+      have hall := (cast_succeeds_iff d img hne).mp ⟨r, h⟩
+      rw [cast_fits d false img hne hall] at h
+      cases h
+      refine ⟨?_, fun _ => hall⟩
+      apply List.map_congr_left
+      intro v hv
+      rw [(clip_spec d v).2.1 (hall v hv)]
+      exact (astype_int d hd v (hall v hv)).1
+  refine ⟨hr.1, ?_, hr.2⟩
+  intro v hv
+  rw [hr.1, List.mem_map] at hv
+  obtain ⟨w, _, rfl⟩ := hv
+  exact (astype_int d hd _ (clip_spec d w).1).2
+
+/-- An integer value that fits is written exactly (integer types). -/
+theorem cast_int_exact (d : DType) (hd : d = .u8 ∨ d = .u16) (n : Int) (hn : InRange d (n : Rat)) :
+    astype d (n : Rat) = (n : Rat) := by
+  rw [(astype_int d hd _ hn).1, Int.floor_intCast]
+
+/-- Non-vacuity: 300 does not fit uint8 — refused, or clamped to 255 (not wrapped to 44); 2.5 is truncated. -/
+example : castImage .u8 false [1, 300, 5 / 2] = .error .runtime := by decide +kernel
+example : castImage .u8 true [1, 300, 5 / 2, -3] = .ok [1, 255, 2, 0] := by decide +kernel
+example : castImage .u16 false [1, 300, 5 / 2] = .ok [1, 300, 2] := by decide +kernel
+example : InRange .u8 255 ∧ ¬ InRange .u8 300 := by
+  unfold InRange DType.lo DType.hi; norm_num
+
+/-- float32: the written value is within half a unit in the last place of the (clamped) value. -/
+theorem cast_f32_close (clip : Bool) (img r : List Rat) (h : castImage .f32 clip img = .ok r) :
+    r.length = img.length ∧
+    ∀ i (hi : i < img.length), ∃ w, r[i]? = some w ∧
+      |w - clipTo DType.f32.lo DType.f32.hi img[i]| ≤ ulpF32 (clipTo DType.f32.lo DType.f32.hi img[i]) / 2 ∧
+      (clip = false → clipTo DType.f32.lo DType.f32.hi img[i] = img[i]) := by
+  have hne : img ≠ [] := by
+    intro h0; rw [h0, cast_empty] at h; cases h
+  have hr : r = img.map (fun v => roundF32 (clipTo DType.f32.lo DType.f32.hi v)) ∧
+      (clip = false → ∀ v ∈ img, InRange .f32 v) := by
+    cases clip with
+    | true =>
+      rw [cast_clips .f32 img hne] at h
+      cases h
+      exact ⟨rfl, fun hc => by cases hc⟩
+    | false =>
+      have hall := (cast_succeeds_iff .f32 img hne).mp ⟨r, h⟩
+      rw [cast_fits .f32 false img hne hall] at h
+      cases h
+      refine ⟨?_, fun _ => hall⟩
+      apply List.map_congr_left
+      intro v hv
+      rw [(clip_spec .f32 v).2.1 (hall v hv)]; rfl
+  refine ⟨by rw [hr.1, List.length_map], ?_⟩
+  intro i hi
+  refine ⟨roundF32 (clipTo DType.f32.lo DType.f32.hi img[i]), ?_, roundF32_error _, ?_⟩
+  · rw [hr.1, List.getElem?_map, List.getElem?_eq_getElem hi]; rfl
+  · intro hc
+    exact (clip_spec .f32 _).2.1 (hr.2 hc _ (List.getElem_mem hi))
+
 /-! ## The DateTime tag survives the round trip -/
 
 /-- `_get_page_timestamps(f"{a}:{b}") = (a, b)` for all non-negative int64 timestamps: the f-string written by
@@ -83,6 +230,55 @@ theorem decode_sound (s : List Char) (a b : Int) (h : decodeRange s = .ok (a, b)
       · rw [if_neg ht] at h; cases h
   · cases h
 
+
+/-! ## Legacy files -/
+
+/-- `_frame_timestamps_from_exposure_timestamps`: as many ranges as frames; every frame but the last
+    runs from its own start to the next frame's start (so the ranges are contiguous); the last one is as
+    long as the distance of the last two starts (or keeps its stop when it is alone). -/
+theorem legacy_frame_ranges (ts : List (Int × Int)) (hne : ts ≠ []) :
+    ∃ r, legacyRanges ts = some r ∧ r.length = ts.length ∧
+      (∀ i, i + 1 < ts.length → r[i]? = (ts[i]?.bind fun a => ts[i + 1]?.map fun b => (a.1, b.1))) ∧
+      r[ts.length - 1]? = (ts.getLast?.map fun last =>
+        (last.1, match ts[ts.length - 2]? with
+          | some prev => if 2 ≤ ts.length then last.1 + (last.1 - prev.1) else last.2
+          | none => last.2)) := by
+  obtain ⟨last, hlast⟩ : ∃ last, ts.getLast? = some last := by
+    cases h : ts.getLast? with
+    | none => exact absurd (List.getLast?_eq_none_iff.mp h) hne
+    | some l => exact ⟨l, rfl⟩
+  have hlen : 0 < ts.length := List.length_pos_iff.mpr hne
+  have hbody : ((ts.zip (ts.drop 1)).map fun (x : (Int × Int) × (Int × Int)) => (x.1.1, x.2.1)).length
+      = ts.length - 1 := by
+    simp only [List.length_map, List.length_zip, List.length_drop]; omega
+  unfold legacyRanges
+  rw [hlast]
+  refine ⟨_, rfl, ?_, ?_, ?_⟩
+  · rw [List.length_append, hbody]; simp; omega
+  · intro i hi
+    have : (ts.zip (ts.drop 1))[i]? = some (ts[i], ts[i + 1]) := by
+      rw [List.getElem?_zip_eq_some]
+      refine ⟨List.getElem?_eq_getElem _, ?_⟩
+      rw [List.getElem?_drop, List.getElem?_eq_getElem (by omega)]
+      congr 2; omega
+    rw [List.getElem?_append_left (by rw [hbody]; omega), List.getElem?_map, this,
+      List.getElem?_eq_getElem (by omega : i < ts.length),
+      List.getElem?_eq_getElem (by omega : i + 1 < ts.length)]
+    rfl
+  · rw [List.getElem?_append_right (Nat.le_of_eq hbody), hbody]
+    simp only [Nat.sub_self, List.getElem?_cons_zero, Option.map_some, Option.some.injEq, Prod.mk.injEq,
+      true_and]
+    by_cases h2 : 2 ≤ ts.length
+    · rw [if_pos h2]
+      rw [List.getElem?_eq_getElem (by omega : ts.length - 2 < ts.length)]
+      simp [h2]
+    · rw [if_neg h2]
+      have : ts.length - 2 = 0 := by omega
+      rw [this]
+      cases ts[0]? <;> simp [h2]
+
+example : legacyRanges [(10, 18), (20, 28), (35, 43)] = some [(10, 20), (20, 35), (35, 50)] := by decide
+example : legacyRanges [(10, 18)] = some [(10, 18)] := by decide
 
 /-! ## Export writes exactly the selection -/
 
@@ -199,53 +395,145 @@ example :
 example : File.Shaped (⟨[⟨10, 18, 15, [[0, 1, 2], [3, 4, 5]]⟩], false⟩ : File Int) 2 3 := by
   intro p hp; simp at hp; subst hp; simp
 
-/-! ## Legacy files -/
+/-! ## Exporting what was read writes the same file again -/
 
-/-- `_frame_timestamps_from_exposure_timestamps`: as many ranges as frames; every frame but the last
-    runs from its own start to the next frame's start (so the ranges are contiguous); the last one is as
-    long as the distance of the last two starts (or keeps its stop when it is alone). -/
-theorem legacy_frame_ranges (ts : List (Int × Int)) (hne : ts ≠ []) :
-    ∃ r, legacyRanges ts = some r ∧ r.length = ts.length ∧
-      (∀ i, i + 1 < ts.length → r[i]? = (ts[i]?.bind fun a => ts[i + 1]?.map fun b => (a.1, b.1))) ∧
-      r[ts.length - 1]? = (ts.getLast?.map fun last =>
-        (last.1, match ts[ts.length - 2]? with
-          | some prev => if 2 ≤ ts.length then last.1 + (last.1 - prev.1) else last.2
-          | none => last.2)) := by
-  obtain ⟨last, hlast⟩ : ∃ last, ts.getLast? = some last := by
-    cases h : ts.getLast? with
-    | none => exact absurd (List.getLast?_eq_none_iff.mp h) hne
-    | some l => exact ⟨l, rfl⟩
-  have hlen : 0 < ts.length := List.length_pos_iff.mpr hne
-  have hbody : ((ts.zip (ts.drop 1)).map fun (x : (Int × Int) × (Int × Int)) => (x.1.1, x.2.1)).length
-      = ts.length - 1 := by
-    simp only [List.length_map, List.length_zip, List.length_drop]; omega
-  unfold legacyRanges
-  rw [hlast]
-  refine ⟨_, rfl, ?_, ?_, ?_⟩
-  · rw [List.length_append, hbody]; simp; omega
-  · intro i hi
-    have : (ts.zip (ts.drop 1))[i]? = some (ts[i], ts[i + 1]) := by
-      rw [List.getElem?_zip_eq_some]
-      refine ⟨List.getElem?_eq_getElem _, ?_⟩
-      rw [List.getElem?_drop, List.getElem?_eq_getElem (by omega)]
-      congr 2; omega
-    rw [List.getElem?_append_left (by rw [hbody]; omega), List.getElem?_map, this,
-      List.getElem?_eq_getElem (by omega : i < ts.length),
-      List.getElem?_eq_getElem (by omega : i + 1 < ts.length)]
-    rfl
-  · rw [List.getElem?_append_right (Nat.le_of_eq hbody), hbody]
-    simp only [Nat.sub_self, List.getElem?_cons_zero, Option.map_some, Option.some.injEq, Prod.mk.injEq,
-      true_and]
-    by_cases h2 : 2 ≤ ts.length
-    · rw [if_pos h2]
-      rw [List.getElem?_eq_getElem (by omega : ts.length - 2 < ts.length)]
-      simp [h2]
-    · rw [if_neg h2]
-      have : ts.length - 2 = 0 := by omega
-      rw [this]
-      cases ts[0]? <;> simp [h2]
+/-- All exported images have `H` rows of `W` pixels. -/
+def Uniform {α} (out : List (OutPage α)) (H W : Nat) : Prop :=
+  ∀ o ∈ out, o.img.length = H ∧ ∀ row ∈ o.img, row.length = W
 
-example : legacyRanges [(10, 18), (20, 28), (35, 43)] = some [(10, 20), (20, 35), (35, 50)] := by decide
-example : legacyRanges [(10, 18)] = some [(10, 18)] := by decide
+/-- What an export writes has the shape of the ROI on every page. -/
+theorem export_uniform {α} (s : Stack) (f : File α) (H W : Nat) (hf : f.Shaped H W) (hr : s.roi.Within H W)
+    (out : List (OutPage α)) (h : exportPages s f = .ok out) :
+    Uniform out s.roi.height.toNat s.roi.width.toNat ∧ out ≠ [] := by
+  constructor
+  · intro o ho
+    obtain ⟨p, hp, hpe⟩ := export_img_source s f out h o ho
+    obtain ⟨h1, h2⟩ := roi_apply_shape p.img H W (hf p hp).1 (hf p hp).2 s.roi hr
+    rw [hpe]
+    exact ⟨by omega, fun row hrow => by have := h2 row hrow; omega⟩
+  · intro h0
+    subst h0
+    exact export_nonempty s f h
+
+/-- Fixed point.  Take any list of pages an export wrote (uniform shape): open it as a fresh `ImageStack`
+    (all pages, step 1, ROI = the page size, exposure key present so never `legacy`) and export again — the same
+    pages come out: same pixels, same DateTime tags, same exposures.  In particular the tags written for a legacy
+    file (reconstructed frame ranges) and for a stepped / cropped selection are stable from then on. -/
+theorem reexport_fixed_point {α} (out : List (OutPage α)) (H W : Nat) (hne : out ≠ []) (hu : Uniform out H W) :
+    exportPages (Stack.ofFile (readBack out)) (readBack out) = .ok out := by
+  cases out with
+  | nil => exact absurd rfl hne
+  | cons o0 os =>
+    have hlen : (readBack (o0 :: os)).pages.length = (o0 :: os).length := by
+      unfold readBack; simp
+    have hstack : Stack.ofFile (readBack (o0 :: os)) =
+        ⟨0, ((o0 :: os).length : Nat), 1, ⟨0, ((o0.img.head?.map List.length).getD 0 : Nat), 0, (o0.img.length : Nat)⟩⟩ := by
+      unfold Stack.ofFile readBack
+      simp
+    rw [hstack]
+    generalize hroi : (⟨0, ((o0.img.head?.map List.length).getD 0 : Nat), 0, (o0.img.length : Nat)⟩ : Roi) = roi
+    have hfr := frames_full (o0 :: os).length roi
+    have hin : Stack.inFile ⟨0, ((o0 :: os).length : Nat), 1, roi⟩ (readBack (o0 :: os)).pages.length = true := by
+      unfold Stack.inFile
+      rw [hfr, hlen, List.all_eq_true]
+      intro p hp
+      rw [List.mem_map] at hp
+      obtain ⟨i, hi, rfl⟩ := hp
+      rw [List.mem_range] at hi
+      simp only [Bool.and_eq_true, decide_eq_true_eq]
+      omega
+    have hvis : Stack.visible ⟨0, ((o0 :: os).length : Nat), 1, roi⟩ (readBack (o0 :: os)) =
+        (readBack (o0 :: os)).pages := by
+      unfold Stack.visible
+      rw [hfr, List.map_map, ← hlen]
+      exact map_getD_range _ _
+    rw [exportPages_modern _ _ rfl hin (by rw [hfr]; simp), hvis]
+    congr 1
+    unfold readBack
+    rw [List.map_map]
+    conv => rhs; rw [← List.map_id (o0 :: os)]
+    apply List.map_congr_left
+    intro o ho
+    have h0 := hu o0 (List.mem_cons_self ..)
+    have ho' := hu o ho
+    have happly : roi.apply o.img = o.img := by
+      rw [← hroi]
+      unfold Roi.apply
+      simp only
+      rw [h0.1, ← ho'.1, pySlice_full]
+      conv => rhs; rw [← List.map_id o.img]
+      apply List.map_congr_left
+      intro row hrow
+      have hw : ((o0.img.head?.map List.length).getD 0 : Nat) = row.length := by
+        cases hi : o0.img with
+        | nil =>
+          have : o.img.length = 0 := by rw [ho'.1, ← h0.1, hi]; rfl
+          have : o.img = [] := List.eq_nil_of_length_eq_zero this
+          rw [this] at hrow; cases hrow
+        | cons r0 rs =>
+          have : r0.length = W := h0.2 r0 (by rw [hi]; exact List.mem_cons_self ..)
+          simp [this, ho'.2 row hrow]
+      rw [hw, pySlice_full]; rfl
+    simp only [Function.comp, outOf, happly, id]
+    have : o.start + o.exposure - o.start = o.exposure := by omega
+    rw [this]
+
+/-- Non-vacuity (and the statement in one line): read back and export again. -/
+example :
+    let out : List (OutPage Int) := [⟨10, 20, 5, [[4, 5]]⟩, ⟨20, 35, 7, [[10, 11]]⟩]
+    exportPages (Stack.ofFile (readBack out)) (readBack out) = .ok out := by decide
+
+/-- Export, reopen, export again: the second file equals the first — for every selection (`s` is any state
+    reached by slicing/cropping) of every well-shaped file, legacy or not. -/
+theorem reexport_after_export {α} (s : Stack) (f : File α) (H W : Nat) (hf : f.Shaped H W)
+    (hr : s.roi.Within H W) (out : List (OutPage α)) (h : exportPages s f = .ok out) :
+    exportPages (Stack.ofFile (readBack out)) (readBack out) = .ok out := by
+  obtain ⟨hu, hne⟩ := export_uniform s f H W hf hr out h
+  exact reexport_fixed_point out _ _ hne hu
+
+/-- Legacy files (DateTime = exposure, no exposure key): the DateTime tags written are the reconstructed frame
+    ranges of the visible pages, the exposures are the old DateTime spans; after that (previous theorem) the file
+    is modern and stable. -/
+theorem export_legacy_tags {α} (s : Stack) (f : File α) (hleg : f.legacy = true)
+    (out : List (OutPage α)) (h : exportPages s f = .ok out) :
+    legacyRanges ((s.visible f).map fun p => (p.start, p.stop)) = some (out.map fun o => (o.start, o.stop)) ∧
+      out.map (·.exposure) = (s.visible f).map (fun p => p.expStop - p.start) ∧
+      out.map (·.img) = (s.visible f).map (fun p => s.roi.apply p.img) := by
+  unfold exportPages Stack.ranges at h
+  rw [hleg] at h
+  simp only [if_true] at h
+  by_cases hin : s.inFile f.pages.length = true
+  · rw [hin] at h
+    simp only [Bool.not_true, Bool.false_eq_true, if_false] at h
+    obtain ⟨r, hr, hlen, _, _⟩ : ∃ r, legacyRanges ((s.visible f).map fun p => (p.start, p.stop)) = some r ∧
+        r.length = ((s.visible f).map fun p => (p.start, p.stop)).length ∧ True ∧ True := by
+      cases hl : legacyRanges ((s.visible f).map fun p => (p.start, p.stop)) with
+      | none => rw [hl] at h; cases h
+      | some r =>
+        by_cases hne : ((s.visible f).map fun p => (p.start, p.stop)) = []
+        · rw [hne] at hl; cases hl
+        · obtain ⟨r', hr', hlen', _⟩ := legacy_frame_ranges _ hne
+          rw [hl] at hr'
+          cases hr'
+          exact ⟨r, rfl, hlen', trivial, trivial⟩
+    rw [hr] at h
+    simp only at h
+    by_cases h0 : r.length = 0
+    · rw [if_pos h0] at h; cases h
+    · rw [if_neg h0] at h
+      cases h
+      obtain ⟨i1, i2, i3⟩ := zipPages_img ((s.visible f).map fun p => s.roi.apply p.img) r
+        (((s.visible f).map fun p => (p.start, p.expStop)).map fun r => r.2 - r.1)
+        (by simp at hlen ⊢; omega) (by simp)
+      refine ⟨by rw [hr, i2], ?_, i1⟩
+      rw [i3, List.map_map]; rfl
+  · have hfalse : s.inFile f.pages.length = false := by simpa using hin
+    rw [hfalse] at h
+    simp at h
+
+example :
+    let f : File Int := ⟨[⟨10, 18, 18, [[0]]⟩, ⟨20, 28, 28, [[1]]⟩, ⟨35, 43, 43, [[2]]⟩], true⟩
+    exportPages ⟨0, 3, 1, ⟨0, 1, 0, 1⟩⟩ f = .ok [⟨10, 20, 8, [[0]]⟩, ⟨20, 35, 8, [[1]]⟩, ⟨35, 50, 8, [[2]]⟩] := by
+  decide
 
 end Verif.C18
